@@ -65,7 +65,12 @@ func Parse(filename string, data []byte) (*File, error) {
 		headOff := hdrLen + hashOff + i*4
 		head := m.load32(headOff)
 		off := head
-		for off != 0 {
+		// A chain longer than the number of records the data can hold is cyclic.
+		maxLinks := len(data) / recordUnit
+		for n := 0; off != 0; n++ {
+			if n > maxLinks {
+				return corrupt()
+			}
 			ename, next, v, ok := m.entryAt(off)
 			if !ok {
 				return corrupt()
